@@ -155,6 +155,8 @@ def tie(tier, seed):
     uni_unmet = []
     wf_yes = wf_no = 0
     wf_unmet = []
+    cons_yes = cons_no = 0
+    cons_unmet = []
     rot_unmet = []
     mism = []
     shapes = {}
@@ -201,6 +203,15 @@ def tie(tier, seed):
                     wf_no += 1
                     if len(wf_unmet) < 4:
                         wf_unmet.append({"graph": item[1]})
+            if len(x) >= 6:
+                # sixth column: the conditions of the universal conservation theorem for edits of one level
+                # (LevelCons.level_edit_conserves_b) hold and the hierarchy it speaks about is the one produced
+                if x[5] == 1:
+                    cons_yes += 1
+                elif x[4] == 1:
+                    cons_no += 1
+                    if len(cons_unmet) < 4:
+                        cons_unmet.append({"graph": item[1]})
             if x[:3] == [1, 1, 1]:
                 agree += 1
             elif len(mism) < 4:
@@ -214,4 +225,6 @@ def tie(tier, seed):
             "calls_with_several_headers_not_meeting_them": rot_other, "several_headers_unmet_examples": uni_unmet,
             "calls_meeting_consistency_theorem_conditions": wf_yes,
             "calls_not_meeting_consistency_theorem_conditions": wf_no, "consistency_unmet_examples": wf_unmet,
+            "calls_meeting_conservation_theorem_conditions": cons_yes,
+            "level_edits_not_meeting_conservation_theorem_conditions": cons_no, "conservation_unmet_examples": cons_unmet,
             "calls_by_shape": shapes, "skipped": skipped, "harness_errors": [repr(e)[:200] for e in errors][:3]}
